@@ -21,7 +21,8 @@ CHECKS = {
         "nothing matches). Complete within that scope; contested counterparts, "
         "ties and exact-threshold hits all occur thousands of times. " 
         "A third jitter of 2^-8 with thresholds 0, 2^-9, 2^-8, 0.25 decides tiny thresholds and max_diff = 0; exceptions other than SyncException are violations. " 
-        "The very same trajectory object as both arguments (with every offset) is part of the space.",
+        "The very same trajectory object as both arguments (with every offset) is part of the space. " 
+        "Offset 0.3 (not a binary fraction); 2200 x 2100 stamps (more than 2^22 pairs) incl. three phases of a dense short trajectory against a sparse long one.",
         "Trusted: numpy float64 arithmetic on multiples of 0.125 (exact), the "
         "predicate oracle in mc/checks/c05.py. Not covered: > 8 stamps, "
         "off-grid stamps other than the literal F3 witness.",
@@ -38,7 +39,8 @@ CHECKS = {
         "points must be refused. Each result is checked for properness, "
         "optimality against an independent closed form (Horn), reproduction of "
         "the generating map, equivariance and permutation invariance. " 
-        "Determined cases are repeated with the point sets as int64 / float32 (exactly representable), as a strided view and as read-only arrays: same transformation.",
+        "Determined cases are repeated with the point sets as int64 / float32 (exactly representable), as a strided view and as read-only arrays: same transformation. " 
+        "Helices of 1025 / 1500 / 1700 points (thorough: 2000, 2049); unequal sizes with either set the longer one.",
         "Trusted: numpy eigh/SVD; Horn oracle in mc/refmodel/geom.py; "
         "condition-aware tolerances (eps*|coordinate|/spread). Not covered: "
         "point sets outside the enumerated grids.",
@@ -56,7 +58,8 @@ CHECKS = {
         "content + hidden cache state, so every reachable combination of "
         "'which views were read before which write' is visited. " 
         "Initial objects also hold their matrices as one (n,4,4) array; the alphabet contains a left multiplication with the propagation switch on and calls that evo rejects (which must change nothing). " 
-        "A single-pose trajectory and a two-pose path are initial objects; an object whose timestamps are not one per pose is a violation.",
+        "A single-pose trajectory and a two-pose path are initial objects; an object whose timestamps are not one per pose is a violation. " 
+        "A further BFS (depth 3, thorough 4) with evo's logger enabled for DEBUG.",
         "Trusted: reference model in mc/checks/c08.py; state canonicalisation "
         "(content rounded to 1e-9 + set of existing caches). Not covered: "
         "histories longer than the depth bound, trajectories other than the "
@@ -76,7 +79,8 @@ CHECKS = {
         "use_filenames x merge: CSV rows/labels/values, duplicate labels "
         "refused. " 
         "evo_res over six result files: three plain ones, a name with glob metacharacters next to the sibling it would match, a NaN statistic, a different statistic set. " 
-        "merge_results also with arrays in other representations (int64 / float32 first or later, one array object under two keys, read-only).",
+        "merge_results also with arrays in other representations (int64 / float32 first or later, one array object under two keys, read-only). " 
+        "Statistics may be 0 or negative; arrays may be 2-D (L x 4, 4 x 4).",
         "Trusted: the predicate in mc/checks/c13.py, csv parsing. Not covered: "
         "lists longer than the bound, result files other than the three APE "
         "fixtures.",
@@ -96,7 +100,8 @@ CHECKS = {
         "and internally consistent; the state includes the buffer-sharing "
         "graph. " 
         "Heap objects also hold their matrices as one (n,4,4) array (views sharing one buffer; transitions are replayed, not deep-copied); writers are also given a result with NaN / inf statistics and info values. " 
-        "A derive operation that builds a second object from the very pose list of the first; copy/deepcopy/pickle are table entries observed without deep copies; trajectories carry metadata dicts.",
+        "A derive operation that builds a second object from the very pose list of the first; copy/deepcopy/pickle are table entries observed without deep copies; trajectories carry metadata dicts. " 
+        "Table entries for the ROS1 bag writer (quaternions unit only to 1e-7) and save_df_as_table in both orientations.",
         "Trusted: snapshots through deepcopy; np.shares_memory for the "
         "aliasing graph. Not covered: heaps > 3 objects, depth beyond bound.",
         "DESIGN.md 4/C16"),
@@ -115,7 +120,8 @@ CHECKS = {
         "state-hash pruning. Invariant in every state: settings.json absent "
         "or complete JSON; no started process fails; finished processes see "
         "all default keys. " 
-        "A fresh process is also started after every operation that completed (not only after a kill).",
+        "A fresh process is also started after every operation that completed (not only after a kill). " 
+        "A killed long edit followed by an edit of a process with the same pid; an outdated file that also carries dropped keys.",
         "Trusted: the VFS model (atomic primitives, inode semantics, process "
         "kill loses user-space buffers); CPython refcount-driven flush of "
         "un-closed files. Not covered: power loss / block-level reordering, "
@@ -135,7 +141,8 @@ CHECKS = {
         "identity; recorded alignment matrix of ape()/rpe()/evo_ape/evo_rpe "
         "maps the unaligned estimate onto the stored one for 6 option "
         "combinations. " 
-        "Also with both trajectories displaced by (4620.37, 54280.91, 310.55) (coordinates large against the extent).",
+        "Also with both trajectories displaced by (4620.37, 54280.91, 310.55) (coordinates large against the extent). " 
+        "One generator per path is repeated with evo's logger enabled for DEBUG (the state of every CLI run); the CLI part compares the recorded matrix with the reference model.",
         "Trusted: Horn oracle; tolerance 1e-9 x coordinate scale. Not covered: "
         "paths outside the step alphabet, > 6 poses.",
         "DESIGN.md 4/C04"),
@@ -169,7 +176,8 @@ CHECKS = {
         "by an independent parser and compared with the reference pipeline in "
         "the documented order; predicted refusals must be refusals; identity "
         "run must reproduce the input bit for bit. " 
-        "Also with file names that contain the reference's file name as suffix / prefix, --propagate_transform with --transform_left, and a motion-filter threshold spanning several poses of the zig-zag fixture.",
+        "Also with file names that contain the reference's file name as suffix / prefix, --propagate_transform with --transform_left, and a motion-filter threshold spanning several poses of the zig-zag fixture. " 
+        "Stale export files of an earlier run exist before every run; EuRoC inputs also without the title line.",
         "Trusted: reference pipeline (mc/refmodel/pipeline.py), Horn oracle, "
         "evo's own project() for the orientation of non-planar projections. "
         "Not covered: bag input/output, other fixtures.",
@@ -190,7 +198,8 @@ CHECKS = {
         "decided by executing both and comparing outputs. Part C: -c "
         "priority, per-run settings override, locked container. " 
         "Reset of every single key, adjacent pair and prefix-related pair from a file in which every key holds a user value; a set whose value tokens are all numeric must not raise. " 
-        "generate cases include the same option given twice with different values.",
+        "generate cases include the same option given twice with different values. " 
+        "A config holding null / false / 0 for an option that the command line sets; the effect of console_logging_format from -c on the run's output.",
         "Trusted: introspection of argparse actions; output comparison of "
         "result zips / exported files. Not covered: short options, triples of "
         "options.",
@@ -207,7 +216,8 @@ CHECKS = {
         "tolerances: index range, exact frame sets/chains, chain property, "
         "minimality of j, start bound, maximality, closest-within-tolerance, "
         "each eligible i once, exact angle band, empty <=> FilterException. " 
-        "All-pairs path mode also with tolerances of 1.0 and above.",
+        "All-pairs path mode also with tolerances of 1.0 and above. " 
+        "Path cases carry orientations (exact half turns, a quarter turn) that must not matter.",
         "Trusted: predicates in mc/checks/c10.py; three-valued comparisons "
         "within 1e-9 for accumulated angles. Not covered: longer sequences, "
         "off-grid geometry.",
@@ -223,7 +233,8 @@ CHECKS = {
         "x thresholds incl. exact hits (partition, cuts only at exceeding "
         "steps); merge: all assignments of 4 (5) time slots to 1..3 "
         "trajectories incl. equal stamps. Every pose carries a unique "
-        "position/orientation/stamp so 'travel together' is decided per pose.",
+        "position/orientation/stamp so 'travel together' is decided per pose. " 
+        "Every fourth tagged pose holds an exact half turn (quaternion w = 0), every fourth an exact quarter turn.",
         "Trusted: predicates in mc/checks/c11.py. Not covered: > 14 poses, "
         "off-grid geometry.",
         "DESIGN.md 4/C11"),
@@ -242,7 +253,8 @@ CHECKS = {
         "ones ([0]+end poses for RPE, zero-distance pairs skipped "
         "consistently), values = definition x factor. " 
         "Every assembly case also with an exact copy of the reference as estimate (all errors exactly zero). " 
-        "rpe() also with support_loop=True.",
+        "rpe() also with support_loop=True. " 
+        "evo_ape / evo_rpe with plot options (--save_plot, --plot_colormap_max_percentile, ...) save the same result bit for bit as without them.",
         "Trusted: reference definitions in mc/checks/c12.py; pair selection "
         "taken from evo's id_pairs_from_delta (decided by C10).",
         "DESIGN.md 4/C12"),
@@ -259,7 +271,8 @@ CHECKS = {
         "heading defect is a listed known finding (K1), matched only on its "
         "exact mapping. " 
         "Also after project() calls rejected for their argument, with matrices held as one (n,4,4) array, and through ape()/rpe() with project_to_plane on equal-but-distinct trajectories. " 
-        "evo_traj --project_to_plane together with association / alignment / merge is judged through C15's pipeline.",
+        "evo_traj --project_to_plane together with association / alignment / merge is judged through C15's pipeline. " 
+        "ape()/rpe() with project_to_plane on poses that already lie in the plane, also under non-default euler_angle_sequence settings; two objects given one metadata dict; metadata replaced / cleared after a projection.",
         "Trusted: numpy rotation oracle. Not covered: rotations outside the "
         "alphabets.",
         "DESIGN.md 4/C14"),
@@ -298,7 +311,8 @@ CHECKS = {
         "evo_rpe lattice (14 dimensions; pairwise + full sub-products) vs the "
         "reference pipeline. " 
         "Plus geometry variants of the estimate file (mirrored copy, displaced by 5e4 m, the reference given twice) x relation x delta x pairing x alignment. " 
-        "Quarter-turn deltas (90 deg, pi/2) in all-pairs mode over references that keep turning past 180/360 deg; in the evo_rpe lattice the selected pairs are judged by C10's predicate oracle.",
+        "Quarter-turn deltas (90 deg, pi/2) in all-pairs mode over references that keep turning past 180/360 deg; in the evo_rpe lattice the selected pairs are judged by C10's predicate oracle. " 
+        "Chains of 257 / 300 / 514 poses (thorough: to 1300) x relations x 3 deltas.",
         "Trusted: as C01; the pair selection itself is evo's "
         "id_pairs_from_delta (decided by C10) applied to the trajectory the "
         "property names.",
@@ -334,7 +348,8 @@ CHECKS = {
         "ns->s within 1 ulp), malformed ones raise FileInterfaceException; "
         "files without data rows; evo-written files parsed independently; "
         "transform files in 3 forms incl. 8 invalid classes. " 
-        "Text transforms also in other whitespace layouts (padded columns, tabs, indentation and trailing blanks, CRLF without final newline, comment line).",
+        "Text transforms also in other whitespace layouts (padded columns, tabs, indentation and trailing blanks, CRLF without final newline, comment line). " 
+        "Written files cover the hard rotation alphabet (exact half / quarter turns, angles within 1e-12 of 0 and pi).",
         "Trusted: mc/refmodel/files.py, Python float(). EuRoC rows are "
         "malformed if < 8 columns or inconsistent with the other rows.",
         "DESIGN.md 4/C07"),
@@ -353,7 +368,8 @@ CHECKS = {
         "completeness guard introspects the parsers for uncovered output "
         "options. " 
         "Bystander files with neighbouring names exist in every initial state and may never change; extension-less plot target also with savefig.format = pdf. " 
-        "Writers are also called with the flag by position / left at its default; one path given to two output options of evo_ape/evo_rpe is judged by an event monitor (every write onto a then-existing path needs a question answered y since the last write to it).",
+        "Writers are also called with the flag by position / left at its default; one path given to two output options of evo_ape/evo_rpe is judged by an event monitor (every write onto a then-existing path needs a question answered y since the last write to it). " 
+        "Answers include whitespace-padded y and an unanswered question (EOF); a plot target that ends with a dot.",
         "Trusted: input() substitution, directory snapshots. Excluded: "
         "--logfile (append), bag exports (time-stamped names).",
         "DESIGN.md 4/C17"),
@@ -368,7 +384,8 @@ CHECKS = {
         "compared with the columns named by the mode; xyz/rpy/speed plots "
         "(called twice on the same objects) and error_array against shifted "
         "timestamps / index; plot.trajectories() for dict/list/single. " 
-        "add_start_end_markers with the caller's own symbols (also one symbol for both ends); plot.trajectories() also for tuple, generator, iterator and dict view.",
+        "add_start_end_markers with the caller's own symbols (also one symbol for both ends); plot.trajectories() also for tuple, generator, iterator and dict view. " 
+        "The figure handed to prepare_axis is not pyplot's current figure.",
         "Trusted: matplotlib artist accessors (incl. private 3-D fields). "
         "Agg backend only.",
         "DESIGN.md 4/C20"),
